@@ -50,7 +50,7 @@ pub fn meta(prop: &str) -> Meta {
                 "frost_core::compute_lagrange_coefficient", "frost_core::compute_group_commitment", "frost_core::scalar_mul (NAF multiscalar, positional mode)",
                 "frost_core::Identifier::try_from<u16>", "frost_core::Identifier::cmp",
             ],
-            bounds: "quick: all 2<=t<=n<=4 and (5,3); thorough: all 2<=t<=n<=7 and (10,7). All signer subsets for default identifiers (and for n<=4), minimal and full subsets for the u16-extreme, pseudo-random full-width and extreme-scalar identifier sets. Messages: symbolic block, empty, literal, 1332-byte mixed. Keys from dealer and (n<=5) from DKG. All scalar values symbolic.",
+            bounds: "quick: all 2<=t<=n<=4 and (5,3); thorough: all 2<=t<=n<=7 and (10,7). All signer subsets for default identifiers (and for n<=4), minimal and full subsets for the u16-extreme, pseudo-random full-width and extreme-scalar identifier sets. Messages: symbolic block, empty, literal, 1332-byte mixed. Keys from dealer and (n<=5) from DKG. All scalar values symbolic. Shapes with more than eight signers: (9,5) quick; (9,9),(9,5),(12,9),(17,9) thorough (full set, top t-subset, a non-prefix (t+1)-subset).",
             outside: &["real curve arithmetic and point encodings of the six suites", "ed25519-dalek verify_strict small-order/canonical checks", "n > 7 (10 in one configuration)", "symbolic identifiers"],
             ..base
         },
@@ -80,7 +80,7 @@ pub fn meta(prop: &str) -> Meta {
         },
         "C05" => Meta {
             functions: &["frost_core::round2::sign (own-entry checks)", "frost_core::verify_signature_share", "frost_core::aggregate / aggregate_custom", "frost_core::compute_binding_factor_list", "frost_core::compute_group_commitment (identity check)", "frost_core::challenge"],
-            bounds: "two concurrent sessions over the same key; every non-empty filling of the signer slots with the other session's shares; every single-field substitution in the verifier's package (message, each hiding/binding commitment, participant removed/added/replaced, group key); six signer-side refusal kinds; identity commitment in every slot and component; |S| <= 3 quick, <= 4 thorough, n <= 5",
+            bounds: "two concurrent sessions over the same key; every non-empty filling of the signer slots with the other session's shares; every single-field substitution in the verifier's package (message, each hiding/binding commitment, participant removed/added/replaced, group key); nine signer-side refusal kinds (incl. the true commitments filed under another signer's / an added participant's identifier, entries exchanged) for the first and last signer position (every position thorough); identity commitment in every slot and component; |S| <= 3 quick, <= 4 thorough, n <= 5",
             outside: &["collision resistance of the real hashes"],
             ..base
         },
@@ -98,7 +98,7 @@ pub fn meta(prop: &str) -> Meta {
         },
         "C09" => Meta {
             functions: &["frost_core::keys::dkg::part2", "part3", "then round1::commit / round2::sign / aggregate on the joint result"],
-            bounds: "exhaustive: n=3 (quick), n in {3,4} (thorough), all t; two concurrent honest runs; per participant every {A,B,absent} assignment of the round-one slots and every {(run,addressee)} or absent filling of the round-two slots (225 resp. 9261 histories per participant); all 2^n common round-one sets for the joint-agreement clause",
+            bounds: "exhaustive: n=3 (quick), n in {3,4} (thorough), all t; two concurrent honest runs; per participant every {A,B,absent} assignment of the round-one slots and every {(run,addressee)} or absent filling of the round-two slots (225 resp. 9261 histories per participant); for every such history all 2^(n-1) round-one sets handed to part3 (which need not be the one part2 saw); all 2^n common round-one sets for the joint-agreement clause",
             outside: &["more than two concurrent runs; n > 4"],
             ..base
         },
@@ -122,13 +122,13 @@ pub fn meta(prop: &str) -> Meta {
         },
         "C13" => Meta {
             functions: &["frost_core::keys::dkg::part2/part3 from restored round1/round2 SecretPackage", "refresh_dkg_part2 / refresh_dkg_shares from restored state", "round2::sign from restored SigningNonces / KeyPackage / SigningPackage", "aggregate with restored PublicKeyPackage", "refresh_share from restored state", "repair_share_part1 from restored KeyPackage", "serialize/deserialize + serde_json of each"],
-            bounds: "n <= 5, every participant (first and last for n>3 quick), binary and JSON; boundary grid {2,3,127,128,255,256,300,32768,65535}^2 for min_signers/max_signers of the stored packages",
+            bounds: "n <= 5, every participant (first and last for n>3 quick), binary and JSON; boundary grid {2,3,127,128,255,256,300,32768,65535}^2 for min_signers/max_signers of the stored packages; size sweep of real round-one/round-two state with t = n in {128,1024,2049} (quick) / 15 sizes from 127 to 4096 (thorough), binary and JSON",
             outside: &[],
             ..base
         },
         "C14" => Meta {
             functions: &["round2::sign, aggregate_custom, verify_signature_share, batch::Verifier::verify", "SecretShare::verify, KeyPackage::try_from, reconstruct, PublicKeyPackage::from_commitment / from_dkg_commitments", "dkg::part2, dkg::part3", "compute_refreshing_shares, refresh_share, refresh_dkg_part2", "repair_share_part1/2/3", "deserialize of every package type on prefixes and single-byte mutations"],
-            bounds: "(n,t) in {(2,2),(3,2),(3,3)} (+(4,2),(4,3) thorough); empty / one-entry / oversized / duplicated / mutually inconsistent / equivocating-peer inputs; adversarial scalars and elements fork; catch_unwind with overflow checks and debug assertions on",
+            bounds: "(n,t) in {(2,2),(3,2),(3,3)} (+(4,2),(4,3) thorough); empty / one-entry / oversized / duplicated / mutually inconsistent / equivocating-peer inputs; public key packages recording threshold 0/1/n/n+1/65535 into refresh, aggregation and repair; (max,min) boundary pairs into part1/refresh part1; adversarial scalars and elements fork; catch_unwind with overflow checks and debug assertions on",
             outside: &["dishonest own state", "byte strings beyond the E2 bounds", "third-party crates on well-typed input"],
             ..base
         },
@@ -146,7 +146,7 @@ pub fn meta(prop: &str) -> Meta {
         },
         "C17" => Meta {
             functions: &["frost_rerandomized::RandomizedParams::new_from_commitments / regenerate_from_seed_and_commitments / from_randomizer", "Randomizer::regenerate_from_seed_and_commitments", "sign_with_randomizer_seed", "sign (explicit randomizer)", "aggregate", "aggregate_custom", "Randomize for KeyPackage / PublicKeyPackage"],
-            bounds: "n <= 5; all subsets for n <= 3 and default identifiers, minimal and full otherwise; seed-based and explicit (free non-zero / zero) randomizers; participant view tampered in seed, participant set, each hiding/binding/whole commitment; one adversarial share per slot in the three detection modes; below-threshold refusals",
+            bounds: "n <= 5; all subsets for n <= 3 and default identifiers, minimal and full otherwise; seed-based and explicit (free non-zero / zero) randomizers; participant view tampered in seed, participant set, each hiding/binding/whole commitment; one adversarial share per slot in the three detection modes; below-threshold refusals compared with the plain aggregation's (same error, same culprits) in every detection mode",
             outside: &[],
             ..base
         },
